@@ -73,7 +73,7 @@ def selftest(ctx):
               "revert": "updated-entry-not-holding-actual"}
     for mode, kind in expect.items():
         out = ctx.path("st_%s.json" % mode)
-        run_driver(ctx, [drv, "-cases", cases, "-work", ctx.mkdir("work"), "-selfbug", mode, "-out", out])
+        run_driver(ctx, [drv, "-cases", cases, "-work", ctx.fastdir("work"), "-selfbug", mode, "-out", out])
         r = load_result(out)
         n = r["counters"].get("violation:" + kind, 0)
         log("selftest driver -selfbug %s: %d x %s" % (mode, n, kind))
@@ -147,7 +147,7 @@ def check(ctx):
 
             def run_shard(i):
                 try:
-                    run_driver(ctx, [drv, "-cases", cases, "-work", ctx.mkdir("work"), "-stride", str(spec[5]), "-shard", str(i),
+                    run_driver(ctx, [drv, "-cases", cases, "-work", ctx.fastdir("work"), "-stride", str(spec[5]), "-shard", str(i),
                                      "-shards", str(shards), "-out", outs[i]], timeout=3000)
                 except Exception as e:      # noqa: re-raised in the main thread
                     errs.append(e)
